@@ -42,6 +42,23 @@ def _flat_conds(conds):
     return out
 
 
+def linear_events(prog, ci, fn, depth=0):
+    """the calls / raises of a loop-free method in evaluation order (source order), with calls to the class's own methods expanded in place: the order of
+    two events does not depend on which of them were moved into helper methods.  -> [ast node]"""
+    nodes = [n for n in ast.walk(fn) if isinstance(n, (ast.Call, ast.Raise)) and hasattr(n, "lineno")]
+    nodes.sort(key=lambda n: (n.lineno, n.col_offset))
+    out = []
+    for n in nodes:
+        if isinstance(n, ast.Call) and isinstance(n.func, ast.Attribute) and isinstance(n.func.value, ast.Name) and n.func.value.id == "self" and depth < 3:
+            hit = prog.find_method(ci, n.func.attr)
+            if hit is not None and hit[1] is not fn:
+                out.append(n)
+                out.extend(linear_events(prog, hit[0], hit[1], depth + 1))
+                continue
+        out.append(n)
+    return out
+
+
 def analyse(obs: Obs, prog):
     m = prog.module(MOD)
     W = lambda c, meth: f"{c.module.rel}:{c.methods[meth].lineno}"
@@ -235,11 +252,11 @@ def analyse(obs: Obs, prog):
             obs.add({"C04"}, "KEY-LINEAR", inst + "/key", cal[2][0] == keyt, derived=cal[2][0], expected="fold_in(self.key, self.key_counter)", where=w)
         # ---- record exactly once with own addr and the callee's trace
         if kind == "assess":
-            hn_ = list(ast.walk(H.methods["handle_trace"]))
-            p_ = lambda n_: (n_.lineno, n_.col_offset)
-            i_vis = min((p_(x) for x in hn_ if (isinstance(x, ast.Call) and isinstance(x.func, ast.Attribute) and x.func.attr in (visit_helpers + ["record"]) and ast.unparse(x.func.value) == "self")
-                         or (isinstance(x, ast.Raise) and "AddressReuse" in ast.unparse(x))), default=None)
-            i_cal = min((p_(x) for x in hn_ if isinstance(x, ast.Call) and isinstance(x.func, ast.Attribute) and x.func.attr == "assess"), default=None)
+            evs_ = linear_events(prog, H, H.methods["handle_trace"])
+            first_ = lambda pred: next((i for i, x in enumerate(evs_) if pred(x)), None)
+            i_vis = first_(lambda x: (isinstance(x, ast.Call) and isinstance(x.func, ast.Attribute) and x.func.attr in (visit_helpers + ["record"]) and ast.unparse(x.func.value) == "self")
+                           or (isinstance(x, ast.Raise) and "AddressReuse" in ast.unparse(x)))
+            i_cal = first_(lambda x: isinstance(x, ast.Call) and isinstance(x.func, ast.Attribute) and x.func.attr == "assess")
             okv_, txtv_ = _reuse_test(r)
             obs.add({"C22", "C02"}, "ADDR-UNIQUE", inst + "/visit", bool(okv_) and i_vis is not None and i_cal is not None and i_vis < i_cal, construct="address-reuse test under assess",
                     derived=f"{txtv_}; visit@{i_vis} callee assess@{i_cal}", expected="assess marks each visited address (self.visit(addr)) before assessing the callee: a duplicated address raises AddressReuse instead of counting its density twice", where=w)
@@ -262,10 +279,10 @@ def analyse(obs: Obs, prog):
             obs.add({"C22"}, "MISSING-ADDR", inst + "/raise", okm, derived=f"{[(show(x), [show(t) for t, p in c]) for c, x in r.raises]}", expected="raise MissingAddress(addr) iff choice_map(addr).static_is_empty()", where=w)
             # evaluation order is source order in this loop-free body: the emptiness test is evaluated before the callee's assess is called (otherwise the
             # callee fails first, with its own inner address), whatever the statement structure around them is
-            pos_ = lambda n_: (n_.lineno, n_.col_offset)
-            hnodes = list(ast.walk(H.methods["handle_trace"]))
-            i_raise = min((pos_(x) for x in hnodes if isinstance(x, ast.Call) and isinstance(x.func, ast.Attribute) and x.func.attr == "static_is_empty"), default=None)
-            i_call = min((pos_(x) for x in hnodes if isinstance(x, ast.Call) and isinstance(x.func, ast.Attribute) and x.func.attr == "assess"), default=None)
+            evs2_ = linear_events(prog, H, H.methods["handle_trace"])
+            f2_ = lambda pred: next((i for i, x in enumerate(evs2_) if pred(x)), None)
+            i_raise = f2_(lambda x: isinstance(x, ast.Call) and isinstance(x.func, ast.Attribute) and x.func.attr == "static_is_empty")
+            i_call = f2_(lambda x: isinstance(x, ast.Call) and isinstance(x.func, ast.Attribute) and x.func.attr == "assess")
             obs.add({"C22"}, "MISSING-ADDR", inst + "/order", i_raise is not None and i_call is not None and i_raise < i_call, derived=f"test@{i_raise} call@{i_call}", expected="test before calling the callee", where=w)
         else:
             trs = env.get("self.traces")
